@@ -46,6 +46,8 @@ def run(ctx):
     from .c06 import paths as writer_paths, fifo
     ctx.guarded("R07.9", "writer", lambda: writer_paths(ctx, "R07.9"))
     ctx.guarded("R07.9", "fifo", lambda: fifo(ctx, "R07.9", "response_queue", {"push_back", "pop_front", "clear"}))
+    ctx.rule("R07.10", "what can enter a connection's response queue: the application's response through respond() -> ClientConnection::enqueue_response, the 400 of ClientConnection::read, the Continue of the header parser -- nothing else pushes, nobody else calls the enqueue methods")
+    ctx.guarded("R07.10", "producers", lambda: producers(ctx, "R07.10"))
 
 
 def ids(ctx):
@@ -136,6 +138,26 @@ def ids(ctx):
     for c in callers:
         roots |= roots_of(facts, c) or {c}
     ctx.ob("R07.1", "ServerRequest::new|callers", all(c.startswith(srv.REQUESTS) for c in roots), "ServerRequest::new is called from %s (on behalf of %s)" % (sorted(callers), sorted(roots)))
+
+
+def producers(ctx, rule):
+    from .util import caller_fns, roots_of
+    from .fields import mut_borrow_consumers
+    facts = ctx.facts
+    he, ce = conn.P + "enqueue_response", CC + "enqueue_response"
+    a = caller_fns(facts, he)
+    ctx.ob(rule, "callers|HttpConnection::enqueue_response", a <= {ce, CC + "read", srv.RESPOND} and (ce in a or srv.RESPOND in a), "HttpConnection::enqueue_response is called from %s (allowed: ClientConnection::enqueue_response / respond, ClientConnection::read)" % sorted(a))
+    b = caller_fns(facts, ce)
+    ctx.ob(rule, "callers|ClientConnection::enqueue_response", b <= {srv.RESPOND}, "ClientConnection::enqueue_response is called from %s (allowed: HttpServer::respond)" % sorted(b))
+    n = 0
+    for fn in facts.fns.values():
+        for site, bi, t in mut_borrow_consumers(fn, conn.HC, "response_queue"):
+            callee = (t["callee"].get("path") if t else None) or ""
+            if last_seg(callee) in ("push_back", "push_front", "insert", "extend", "append"):
+                n += 1
+                roots = roots_of(facts, fn.name) or {fn.name}
+                ctx.ob(rule, "push|%s" % fn.name.split("::")[-1], roots <= {he, conn.PARSE_H}, "a response is pushed onto the queue in %s (on behalf of %s; allowed: enqueue_response, parse_headers)" % (fn.name, sorted(roots)), fn.loc(site[0], site[1]))
+    ctx.ob(rule, "push|floor", n >= 2, "%d pushing site(s) inspected (floor 2)" % n)
 
 
 def strip_some(t):
